@@ -494,6 +494,10 @@ func (e *Env) evalCall(c *ast.CallExpr) Val {
 			e.fail("atloop() used outside a loop invariant")
 		}
 		return e.withCur(e.loopSnap).eval(arg(0))
+	case "suffixof":
+		// suffixof(s, b, k): s is b[k:] (same backing array)
+		sv, bv, k := e.eval(arg(0)), e.eval(arg(1)), e.eval(arg(2))
+		return boolVal(tAnd(tEq(sv.L[0], bv.L[0]), tEq(sv.L[1], "(+ "+bv.L[1]+" "+k.L[0]+")"), tEq(sv.L[2], "(- "+bv.L[2]+" "+k.L[0]+")")))
 	case "atiter":
 		if e.iterSnap == nil {
 			e.fail("atiter() used outside a loop step/invariant")
